@@ -187,6 +187,51 @@ func casesFen(c *caseCtx) {
 		}
 		c.emit("engfen %s :: %s => %s", codes(start), strings.Join(ops, " "), strings.Join(obs, " | "))
 	}
+	// a new game set up on the same engine: the same placement with other clocks, the position just reached
+	// given as a FEN, another position - each time the reported FEN is that of the new set-up
+	for g := 0; g < c.scale(12, 200); g++ {
+		start := randomFEN(c)
+		if g%3 == 0 {
+			start = fen.Initial
+		}
+		e := engine.New(ctx, "t", "t", search.AlphaBeta{Eval: search.Leaf{Eval: eval.Material{}}})
+		if err := e.Reset(ctx, start); err != nil {
+			continue
+		}
+		var ops, obs []string
+		obs = append(obs, codes(e.Position()))
+		for k := 0; k < 8; k++ {
+			b := e.Board()
+			moves := legalMoves(b.Position(), b.Turn())
+			switch {
+			case k%3 == 2:
+				// same placement, side, rights and e.p. square - other clocks
+				np, fm := c.r.Intn(90), 1+c.r.Intn(200)
+				if c.r.Intn(2) == 0 {
+					np, fm = 0, 1
+				}
+				f := fen.Encode(b.Position(), b.Turn(), np, fm)
+				if err := e.Reset(ctx, f); err != nil {
+					k = 99
+					break
+				}
+				ops = append(ops, "rs:"+codes(f))
+			case len(moves) > 0:
+				str := uciMove(pickMove(c, moves))
+				if err := e.Move(ctx, str); err != nil {
+					k = 99
+					break
+				}
+				ops = append(ops, "mv:"+codes(str))
+			default:
+				k = 99
+			}
+			if k < 99 {
+				obs = append(obs, codes(e.Position()))
+			}
+		}
+		c.emit("engfen %s :: %s => %s", codes(start), strings.Join(ops, " "), strings.Join(obs, " | "))
+	}
 }
 
 func safeEngineMove(ctx context.Context, e *engine.Engine, s string) (err error, crashed bool) {
